@@ -25,21 +25,87 @@ def formula_class(name):
     return CNF if name == 'CNF' else OPB
 
 
+# Large instances: the same reference predicates are evaluated on a *batch* of assignments (models found
+# by DPLL, their one- and two-flip neighbours, and random assignments) instead of all 2^n rows.
+_LARGE = {'on': False, 'rseed': 0, 'env': None}
+
+
+class _BatchOK(Exception):
+    """raised by compare() in batch mode once the model comparison has succeeded"""
+
+    def __init__(self, accepted, rows):
+        Exception.__init__(self)
+        self.accepted = accepted
+        self.rows = rows
+
+
+def batch_for(F, rseed, want_models=6, flips=60, randoms=40):
+    """tt.Batch of assignments around the models of the CNF F"""
+    import random as _r
+    from vlib import sat
+    R = _r.Random(rseed)
+    n = F.number_of_variables()
+    clauses = [list(c) for c in F]
+    rows = []
+    models = []
+    for k in range(want_models):
+        # diversify: random unit assumptions (dropped if they make the instance unsatisfiable)
+        extra = [[R.choice([1, -1]) * R.randint(1, n)] for _ in range(0 if k == 0 else min(3, n))] if n else []
+        try:
+            m = sat.solve(n, clauses + extra, max_nodes=2000)
+            if m is None and extra:
+                m = sat.solve(n, clauses, max_nodes=2000) if not models else None
+        except sat.Budget:
+            m = None          # too hard for the bounded search: the batch lives on random rows only
+            if k == 0:
+                break
+        if m is not None:
+            models.append(frozenset(l for l in m if l > 0))
+    for m in models:
+        rows.append(m)
+        for _ in range(flips // max(1, len(models))):
+            a = set(m)
+            for _ in range(R.choice([1, 1, 2, 3])):
+                v = R.randint(1, n)
+                a.symmetric_difference_update({v})
+            rows.append(frozenset(a))
+    for _ in range(randoms):
+        dens = R.choice([0.05, 0.2, 0.5, 0.8])
+        rows.append(frozenset(v for v in range(1, n + 1) if R.random() < dens))
+    rows.append(frozenset())
+    rows.append(frozenset(range(1, n + 1)))
+    return tt.Batch(n, rows), len(models)
+
+
+def ENV(F, nv):
+    """what the tt functions get as their first argument: the variable count (all 2^n rows) or a batch"""
+    if not _LARGE['on']:
+        return nv
+    if _LARGE['env'] is None or _LARGE['env'][0] is not F:
+        B, nm = batch_for(F, _LARGE['rseed'])
+        _LARGE['env'] = (F, B, nm)
+    return _LARGE['env'][1]
+
+
 def model_tt(F):
-    return tt.formula_tt(F)
+    return tt.formula_tt(F, ENV(F, F.number_of_variables()))
 
 
 def compare(F, want, what, case):
+    """full tables: returns the number of models; batch mode: returns None (counts are not available)"""
     n = F.number_of_variables()
+    E = ENV(F, n)
     got = model_tt(F)
     if got != want:
         a = tt.first_row(got ^ want)
-        asg = tt.row_assignment(n, a)
+        asg = E.row(a) if isinstance(E, tt.Batch) else tt.row_assignment(n, a)
         lab = list(F.all_variable_labels())
         true_vars = [lab[abs(l) - 1] for l in asg if l > 0]
         raise Violation("{} {}: the assignment with true variables {} is {} by the formula but {} the documented kind of object".format(
             what, case, true_vars, 'accepted' if (got >> a) & 1 else 'rejected',
             'is' if (want >> a) & 1 else 'is not'))
+    if isinstance(E, tt.Batch):
+        raise _BatchOK(tt.popcount(got), E.K)      # the count oracles need full tables: stop here
     return tt.popcount(got)
 
 
@@ -86,9 +152,9 @@ def run_php(case):
         raise Violation("PHP {}: {} variables, documented {}".format(case, nv, m * h))
     dec = names.group(names.decode(F), 'p')
     expect_indices(dec, [(i, j) for i in range(1, m + 1) for j in range(1, h + 1)], "PHP {}".format(case))
-    x = {k: tt.var_mask(nv, v) for k, v in dec.items()}
+    x = {k: tt.var_mask(ENV(F, nv), v) for k, v in dec.items()}
     P, H = range(1, m + 1), range(1, h + 1)
-    want = php_predicate(nv, x, P, H, {i: H for i in P}, {j: P for j in H}, fun, onto)
+    want = php_predicate(ENV(F, nv), x, P, H, {i: H for i in P}, {j: P for j in H}, fun, onto)
     cnt = compare(F, want, "PigeonholePrinciple", case)
     # encoding free counts
     if fun and onto:
@@ -142,11 +208,11 @@ def run_gphp(case):
         raise Violation("GraphPHP {}: {} variables for {} edges".format(case, nv, len(edges)))
     dec = names.group(names.decode(F), 'p')
     expect_indices(dec, edges, "GraphPHP {}".format(case))
-    x = {k: tt.var_mask(nv, v) for k, v in dec.items()}
+    x = {k: tt.var_mask(ENV(F, nv), v) for k, v in dec.items()}
     P, H = range(1, L + 1), range(1, R + 1)
     nh = {i: [j for j in H if (i, j) in x] for i in P}
     npg = {j: [i for i in P if (i, j) in x] for j in H}
-    want = php_predicate(nv, x, P, H, nh, npg, fun, onto)
+    want = php_predicate(ENV(F, nv), x, P, H, nh, npg, fun, onto)
     cnt = compare(F, want, "GraphPigeonholePrinciple", case)
     # encoding free
     if fun:
@@ -205,12 +271,12 @@ def run_bphp(case):
         raise Violation("BinaryPHP {}: {} variables, documented {} x {} bits".format(case, nv, m, bits))
     dec = names.group(names.decode(F), 'v')
     expect_indices(dec, [(i, b) for i in range(1, m + 1) for b in range(bits)], "BinaryPHP {}".format(case))
-    FULL = tt.full(nv)
+    FULL = tt.full(ENV(F, nv))
 
     def image_is(i, j):
         r = FULL
         for b in range(bits):
-            mk = tt.var_mask(nv, dec[(i, b)])
+            mk = tt.var_mask(ENV(F, nv), dec[(i, b)])
             r &= mk if (j >> b) & 1 else FULL & ~mk
         return r
     want = FULL
@@ -221,7 +287,7 @@ def run_bphp(case):
             ok |= img[(i, j)]
         want &= ok
     for j in range(h):
-        want &= tt.at_most(nv, [img[(i, j)] for i in range(1, m + 1)], 1)
+        want &= tt.at_most(ENV(F, nv), [img[(i, j)] for i in range(1, m + 1)], 1)
     cnt = compare(F, want, "BinaryPigeonholePrinciple", case)
     exp = factorial(h) // factorial(h - m) if m <= h else 0
     if cnt != exp:
@@ -266,8 +332,8 @@ def run_rphp(case):
     expect_indices(p, [(u, v) for u in range(1, m + 1) for v in range(1, r + 1)], "RPHP p {}".format(case))
     expect_indices(q, [(v, w) for v in range(1, r + 1) for w in range(1, h + 1)], "RPHP q {}".format(case))
     expect_indices(rr, [(v,) for v in range(1, r + 1)], "RPHP r {}".format(case))
-    M = lambda d, k: tt.var_mask(nv, d[k])      # noqa
-    FULL = tt.full(nv)
+    M = lambda d, k: tt.var_mask(ENV(F, nv), d[k])      # noqa
+    FULL = tt.full(ENV(F, nv))
     want = FULL
     for u in range(1, m + 1):                          # 3.1a
         row = 0
@@ -275,7 +341,7 @@ def run_rphp(case):
             row |= M(p, (u, v))
         want &= row
     for v in range(1, r + 1):                          # 3.1b
-        want &= tt.at_most(nv, [M(p, (u, v)) for u in range(1, m + 1)], 1)
+        want &= tt.at_most(ENV(F, nv), [M(p, (u, v)) for u in range(1, m + 1)], 1)
     for v in range(1, r + 1):                          # 3.1c
         for u in range(1, m + 1):
             want &= (FULL & ~M(p, (u, v))) | M(rr, (v,))
@@ -320,9 +386,9 @@ def run_count(case):
         raise Violation("Counting {}: {} variables, documented C(M,p)={}".format(case, nv, comb(M, p)))
     dec = names.group(names.decode(F), 'p')
     expect_indices(dec, list(itertools.combinations(range(1, M + 1), p)), "Counting {}".format(case))
-    want = tt.full(nv)
+    want = tt.full(ENV(F, nv))
     for i in range(1, M + 1):
-        want &= tt.exactly(nv, [tt.var_mask(nv, v) for S, v in dec.items() if i in S], 1)
+        want &= tt.exactly(ENV(F, nv), [tt.var_mask(ENV(F, nv), v) for S, v in dec.items() if i in S], 1)
     cnt = compare(F, want, "CountingPrinciple", case)
     if M % p == 0:
         k = M // p
@@ -364,9 +430,9 @@ def run_matching(case):
         raise Violation("Matching {}: {} variables for {} edges".format(case, nv, len(edges)))
     dec = names.group(names.decode(F), 'e')
     expect_indices(dec, edges, "Matching {}".format(case))
-    want = tt.full(nv)
+    want = tt.full(ENV(F, nv))
     for u in range(1, n + 1):
-        want &= tt.exactly(nv, [tt.var_mask(nv, v) for e, v in dec.items() if u in e], 1)
+        want &= tt.exactly(ENV(F, nv), [tt.var_mask(ENV(F, nv), v) for e, v in dec.items() if u in e], 1)
     cnt = compare(F, want, "PerfectMatchingPrinciple", case)
     exp = gg.count_perfect_matchings(n, edges)
     if cnt != exp:
@@ -405,15 +471,15 @@ def run_subsetcard(case):
         raise Violation("SubsetCard {}: {} variables for {} edges".format(case, nv, len(edges)))
     dec = names.group(names.decode(F), 'x')
     expect_indices(dec, edges, "SubsetCard {}".format(case))
-    want = tt.full(nv)
+    want = tt.full(ENV(F, nv))
     for u in range(1, L + 1):
-        ms = [tt.var_mask(nv, v) for (a, b), v in dec.items() if a == u]
+        ms = [tt.var_mask(ENV(F, nv), v) for (a, b), v in dec.items() if a == u]
         d = len(ms)
-        want &= tt.exactly(nv, ms, -(-d // 2)) if eq else tt.at_least(nv, ms, -(-d // 2))
+        want &= tt.exactly(ENV(F, nv), ms, -(-d // 2)) if eq else tt.at_least(ENV(F, nv), ms, -(-d // 2))
     for w in range(1, R + 1):
-        ms = [tt.var_mask(nv, v) for (a, b), v in dec.items() if b == w]
+        ms = [tt.var_mask(ENV(F, nv), v) for (a, b), v in dec.items() if b == w]
         d = len(ms)
-        want &= tt.exactly(nv, ms, d // 2) if eq else tt.at_most(nv, ms, d // 2)
+        want &= tt.exactly(ENV(F, nv), ms, d // 2) if eq else tt.at_most(ENV(F, nv), ms, d // 2)
     cnt = compare(F, want, "SubsetCardinalityFormula", case)
     labels = [case['cls'], g.get('as', 'cnfgen'), 'equalities' if eq else 'inequalities', 'sat' if cnt else 'unsat']
     degl = [sum(1 for e in edges if e[0] == u) for u in range(1, L + 1)]
@@ -455,21 +521,21 @@ def run_cliquecoloring(case):
     expect_indices(e, gg.all_pairs(n), "CliqueColoring e {}".format(case))
     expect_indices(q, [(i, v) for i in range(1, k + 1) for v in range(1, n + 1)], "CliqueColoring q {}".format(case))
     expect_indices(r, [(v, l) for v in range(1, n + 1) for l in range(1, c + 1)], "CliqueColoring r {}".format(case))
-    M = lambda d, key: tt.var_mask(nv, d[key])     # noqa
-    FULL = tt.full(nv)
+    M = lambda d, key: tt.var_mask(ENV(F, nv), d[key])     # noqa
+    FULL = tt.full(ENV(F, nv))
     want = FULL
     V = range(1, n + 1)
     for i in range(1, k + 1):                      # q is a total function [k] -> [n]
-        want &= tt.exactly(nv, [M(q, (i, v)) for v in V], 1)
+        want &= tt.exactly(ENV(F, nv), [M(q, (i, v)) for v in V], 1)
     for v in V:                                    # injective
-        want &= tt.at_most(nv, [M(q, (i, v)) for i in range(1, k + 1)], 1)
+        want &= tt.at_most(ENV(F, nv), [M(q, (i, v)) for i in range(1, k + 1)], 1)
     for (u, v) in e:                               # images of distinct clique members are adjacent
         for i in range(1, k + 1):
             for j in range(1, k + 1):
                 if i != j:
                     want &= (FULL & ~(M(q, (i, u)) & M(q, (j, v)))) | M(e, (u, v))
     for v in V:                                    # r is a total function [n] -> [c]
-        want &= tt.exactly(nv, [M(r, (v, l)) for l in range(1, c + 1)], 1)
+        want &= tt.exactly(ENV(F, nv), [M(r, (v, l)) for l in range(1, c + 1)], 1)
     for (u, v) in e:                               # proper colouring
         for l in range(1, c + 1):
             want &= FULL & ~(M(e, (u, v)) & M(r, (u, l)) & M(r, (v, l)))
@@ -496,10 +562,72 @@ def enum_cliquecoloring(tier):
                         yield {'n': n, 'k': k, 'c': c, 'cls': cls}
 
 
+# ---------------------------------------------------------------------------
+# the same families past the truth-table range
+
+LARGE_RUNNERS = {}
+
+
+def run_large(case):
+    fam = case['family']
+    runner = LARGE_RUNNERS[fam]
+    _LARGE.update(on=True, rseed=case['rseed'], env=None)
+    try:
+        try:
+            runner(case['case'])
+        except _BatchOK as ok:
+            nm = _LARGE['env'][2] if _LARGE['env'] else 0
+            labels = [fam, 'models-found' if nm else 'no-model-found', 'accepted-rows' if ok.accepted else 'no-accepted-row']
+            return Outcome(labels=labels, nontrivial=ok.rows >= 20)
+        raise RuntimeError("harness: large mode did not reach the model comparison")
+    finally:
+        _LARGE.update(on=False, env=None)
+
+
+@st.composite
+def strat_large(draw):
+    fam = draw(st.sampled_from(['php', 'gphp', 'bphp', 'rphp', 'count', 'matching', 'subsetcard', 'cliquecoloring']))
+    I = lambda a, b: draw(st.integers(a, b))      # noqa
+    B = lambda: draw(st.booleans())               # noqa
+    if fam == 'php':
+        m = I(3, 12)
+        c = {'m': m, 'n': I(max(3, m - 1), 14), 'functional': B(), 'onto': B(), 'cls': 'CNF'}
+    elif fam == 'gphp':
+        g = draw(gg.bipartite_graphs(Lmin=4, Lmax=9, Rmin=5, Rmax=10, max_edges=60))
+        c = {'graph': g, 'functional': B(), 'onto': B(), 'cls': 'CNF'}
+    elif fam == 'bphp':
+        m = I(3, 10)
+        c = {'m': m, 'n': I(max(2, m - 1), 40), 'cls': 'CNF'}
+    elif fam == 'rphp':
+        m = I(2, 5)
+        c = {'m': m, 'r': I(m, 7), 'n': I(max(1, m - 1), 7), 'cls': 'CNF'}
+    elif fam == 'count':
+        M, p = draw(st.sampled_from([(8, 2), (9, 3), (10, 2), (7, 3), (8, 4), (12, 2), (9, 2), (10, 5)]))
+        c = {'M': M, 'p': p, 'cls': 'CNF'}
+    elif fam == 'matching':
+        c = {'graph': draw(gg.simple_graphs(nmin=8, nmax=14, max_edges=60)), 'cls': 'CNF'}
+    elif fam == 'subsetcard':
+        # small degrees on both sides (the clause encoding of "at most half" is exponential in the degree)
+        n = I(6, 14)
+        d = I(2, 4)
+        edges = sorted(set((u, (u + j * (1 + n % 3)) % n + 1) for u in range(1, n + 1) for j in range(d)))
+        c = {'graph': {'L': n, 'R': n, 'edges': [list(e) for e in edges], 'as': draw(st.sampled_from(['cnfgen', 'networkx', 'networkx-rl']))},
+             'equalities': B(), 'cls': 'CNF'}
+    else:
+        c = {'n': I(5, 8), 'k': I(2, 4), 'c': I(2, 4), 'cls': 'CNF'}
+    return {'family': fam, 'case': c, 'rseed': I(0, 10 ** 6)}
+
+
 NT = "non-trivial: >=1 variable and >=1 clause; distinct by (family, parameters, edge list, class)"
 ORACLE = "oracle: model set (all 2^n assignments, bit-parallel) equals the documented object predicate on name-decoded variables, and the model count equals an encoding-free count of the objects; "
 
+LARGE_RUNNERS.update(php=run_php, gphp=run_gphp, bphp=run_bphp, rphp=run_rphp, count=run_count, matching=run_matching,
+                     subsetcard=run_subsetcard, cliquecoloring=run_cliquecoloring)
+
 SUBCHECKS = [
+    SubCheck('large', run_large, strategy=strat_large, quick=200, thorough=6000,
+             rule="the same families at 30-170 variables (php up to 12x14, graph-php up to 9x10, binary php, relativized php, counting up to C(12,2), perfect matching on 8-14 vertices, subset cardinality on 6-14 vertices per side, clique-colouring n<=8): the same reference predicates evaluated on a batch of ~110 assignments = up to 6 models found by DPLL, their 1-3-flip neighbours, random assignments of four densities, all-false and all-true; oracle: formula and predicate agree on every row; non-trivial: >=20 rows",
+             required_labels=['models-found', 'accepted-rows', 'php', 'gphp', 'bphp', 'rphp', 'count', 'matching', 'subsetcard', 'cliquecoloring']),
     SubCheck('php', run_php, enumerate_cases=enum_php,
              rule="PigeonholePrinciple(m,n,functional,onto) for all m*n<=20 (thorough 22), four flag combinations, CNF and OPB; " + ORACLE + NT,
              required_labels=['sat', 'unsat', 'fun', 'nofun', 'onto', 'noonto', 'm>n', 'm=n', 'zero-parameter', 'CNF', 'OPB']),
